@@ -16,7 +16,6 @@ import (
 
 	"github.com/fatedier/frp/pkg/util/vhost"
 
-	"verifharness/hx"
 )
 
 func init() { extraParts = append(extraParts, (*run).poolKeyPart) }
@@ -75,19 +74,38 @@ func (r *run) poolKeyPart(_ []credKind) error {
 		if sc.location != "" {
 			path = sc.location + "/1"
 		}
-		// 1. the owner of the credentials makes a request; the proxy keeps the backend connection idle afterwards
-		id1 := fmt.Sprintf("k%d-auth", si)
-		rq1 := areq{form: "FOrigin", proto: "PH11", method: "GET", hdrHost: "example.com", path: path, auth: basic("alice", "apw")}
-		h1 := rawDo(ln.Addr().String(), rq1.wire(id1), "GET", nil)
-		// 2. somebody without credentials names the transport key of that route as Host
+		rt := route{0, "example.com", sc.location, sc.byUser, "alice", "apw", true}
+		tsym := table{name: "pool-key-" + sc.name, routes: []route{rt}}.coq(r.sym)
 		key := "example.com." + b64(sc.location) + "." + b64(sc.byUser) + "." + b64(sc.endpoint) + ".1"
-		id2 := fmt.Sprintf("k%d-key", si)
-		rq2 := areq{form: "FOrigin", proto: "PH11", method: "GET", hdrHost: key, path: path}
-		h2 := rawDo(ln.Addr().String(), rq2.wire(id2), "GET", nil)
-		reached := len(arr.get(id2)) > 0
-		r.notes[fmt.Sprintf("poolkey:%s", sc.name)] = fmt.Sprintf("authenticated GET -> %d (backend %v); unauthenticated GET with Host %q -> %d, backend reached: %v",
-			h1.status, len(arr.get(id1)) > 0, key, h2.status, reached)
-		_ = hx.Bool
+		emit := func(rq areq, id, note string) {
+			hr := rawDo(ln.Addr().String(), rq.wire(id), "GET", nil)
+			backend := -1
+			if got := arr.get(id); len(got) > 0 {
+				backend = got[0]
+				if u, p, _ := parseBasicRef(rq.auth); u != "alice" || p != "apw" {
+					r.fail("backend-reached-without-credentials:vhost-http:host-is-transport-key",
+						fmt.Sprintf("route example.com%s (routeByHTTPUser=%q, endpoint %q) demands \"alice\":\"apw\"; %s; the request carried Authorization user=%q password=%q, selects no route, and was sent to the protected backend over the idle connection (status %d)",
+							sc.location, sc.byUser, sc.endpoint, note, u, p, hr.status),
+						fmt.Sprintf("table pool-key-%s; %s", sc.name, rq.String()))
+				}
+			}
+			if hr.err != nil {
+				r.errs++
+				r.fail("zz-driver-io:pool-key", "request failed: "+hr.err.Error(), rq.String())
+				return
+			}
+			r.addCase(fmt.Sprintf("CServe %s %s %d (%d) (* table pool-key-%s; %s; %s *)", tsym, rq.coq(r.sym), hr.status, backend, sc.name, note, rq.String()),
+				true, "pool-key:"+sc.name, fmt.Sprintf("pool-key:status-%d", hr.status))
+		}
+		// 0. nobody has been here yet: the key as Host selects no route and there is no idle connection
+		emit(areq{form: "FOrigin", proto: "PH11", method: "GET", hdrHost: key, path: path}, fmt.Sprintf("k%d-cold", si), "no request before")
+		// 1. the owner of the credentials makes a request; the proxy's transport keeps the backend connection idle afterwards
+		emit(areq{form: "FOrigin", proto: "PH11", method: "GET", hdrHost: "example.com", path: path, auth: basic("alice", "apw")}, fmt.Sprintf("k%d-auth", si), "the authenticated request")
+		// 2. somebody without credentials names the transport key of that route as Host (origin form, absolute form, wrong password)
+		note := "after an authenticated request left the backend connection idle, Host = the route's transport key " + key
+		emit(areq{form: "FOrigin", proto: "PH11", method: "GET", hdrHost: key, path: path}, fmt.Sprintf("k%d-key", si), note)
+		emit(areq{form: "FOrigin", proto: "PH10", method: "GET", hdrHost: key, path: path, auth: basic("alice", "WRONG")}, fmt.Sprintf("k%d-key-wrong", si), note)
+		emit(areq{form: "FOrigin", proto: "PH11", method: "GET", hdrHost: "example.com", path: path}, fmt.Sprintf("k%d-plain-noauth", si), "the ordinary host without credentials")
 		_ = srv.Close()
 	}
 	return nil
